@@ -644,3 +644,21 @@ package dagsync
 //@   requires ss != nil
 //@   modifies ss.err
 //@   ensures ss.err == err
+
+// The per-call configuration (C01 "for all option combinations") is the zero configuration as changed by
+// the options given, in order, and by nothing else: what the last option left is what is returned.
+//@ func getSyncOpts
+//@   property C01
+//@   ghost gdepth := 0
+//@   ghost gseg := 0
+//@   ghost gresync := false
+//@   ghost ghead := zero("cid.Cid")
+//@   ghost gstop := zero("cid.Cid")
+//@   at call SyncOption: after ghost gdepth := cfg.depthLimit
+//@   at call SyncOption: after ghost gseg := cfg.segDepthLimit
+//@   at call SyncOption: after ghost gresync := cfg.resync
+//@   at call SyncOption: after ghost ghead := cfg.headAdCid
+//@   at call SyncOption: after ghost gstop := cfg.stopAdCid
+//@   loop 1: invariant rangeindex < len(opts) && (rangeindex >= 0 ==> gdepth == cfg.depthLimit && gseg == cfg.segDepthLimit && gresync == cfg.resync && ghead == cfg.headAdCid && gstop == cfg.stopAdCid) && (rangeindex < 0 ==> cfg.depthLimit == 0 && cfg.segDepthLimit == 0 && !cfg.resync && cfg.headAdCid == zero("cid.Cid") && cfg.stopAdCid == zero("cid.Cid") && cfg.blockHook == nil)
+//@   ensures-local len(opts) == 0 ==> result.depthLimit == 0 && result.segDepthLimit == 0 && !result.resync && result.headAdCid == zero("cid.Cid") && result.stopAdCid == zero("cid.Cid") && result.blockHook == nil
+//@   ensures-local len(opts) > 0 ==> result.depthLimit == gdepth && result.segDepthLimit == gseg && result.resync == gresync && result.headAdCid == ghead && result.stopAdCid == gstop
